@@ -608,4 +608,47 @@ func sameList(a, b []string) bool {
 	return true
 }
 
-func selftestRewrites() error { return nil }
+
+
+// gosym replay <file>: native re-run of one stored counterexample against /repo's working tree
+func cmdReplay(args []string) {
+	if len(args) < 1 {
+		fmt.Fprintln(os.Stderr, "usage: gosym replay <replay.json>")
+		os.Exit(2)
+	}
+	b, err := os.ReadFile(args[0])
+	if err != nil {
+		fmt.Fprintln(os.Stderr, err)
+		os.Exit(2)
+	}
+	var rp struct {
+		Property  string            `json:"property"`
+		Pkg       string            `json:"pkg"`
+		Harness   string            `json:"harness"`
+		Params    map[string]int    `json:"params"`
+		Env       map[string]string `json:"env"`
+		Violation Violation         `json:"violation"`
+		Vector    []VecEntry        `json:"vector"`
+	}
+	if err := json.Unmarshal(b, &rp); err != nil {
+		fmt.Fprintln(os.Stderr, err)
+		os.Exit(2)
+	}
+	cfg := defaultConfig()
+	workdir, _ := os.MkdirTemp("", "gosym-replay-")
+	defer os.RemoveAll(workdir)
+	bin, err := buildReplayBinary(cfg, rp.Pkg, workdir)
+	if err != nil {
+		fmt.Fprintln(os.Stderr, err)
+		os.Exit(2)
+	}
+	h := &HarnessSpec{Pkg: rp.Pkg, Name: rp.Harness, Env: rp.Env, ReplaySecs: 30}
+	o := runReplay(bin, cfg, h, rp.Params, rp.Vector, workdir)
+	fmt.Printf("native result: %s\n", o.Result)
+	v := &ViolationRec{Violation: rp.Violation}
+	if confirms(v, o) {
+		fmt.Printf("VIOLATION property=%s replay=%s\n  reproduced natively: %s %q\n", rp.Property, args[0], rp.Violation.Kind, rp.Violation.Label)
+		os.Exit(1)
+	}
+	fmt.Println("not reproduced on the current tree")
+}
